@@ -22,6 +22,8 @@ from vlib.props import C01, C02
 
 ID = "C13"
 LEVEL = "exploration"
+EXHAUSTIVE = False
+EXHAUSTIVE_STREAMS = {'enumerated': 'every template x every knowledge assignment (complete)', 'random': 'sampled'}
 RULE = ("case = (IR statement over schema-qualified tables, knowledge assignment: each table of the scope and the target known-with-columns or unknown, "
         "provider kind). enumerated stream: every shape template x every knowledge assignment over <= 3 scope tables + target (bounded-exhaustive); "
         "random stream: Hypothesis over templates, column sets (overlap none/partial) and assignments. Non-trivial = >= 1 known table in a scope of >= 2 "
